@@ -66,7 +66,7 @@ func c12Scenarios(tier string) []e1lib.Scenario {
 	dev := false
 	add := func(c stage.Cfg, bound int) {
 		var done []string
-		if !c.Cancel && !c.Idle {
+		if !c.Cancel && !c.Idle && c.Late == 0 { // a late consumer really sleeps on the real runtime: exploration only
 			done = []string{"got-eof"}
 		}
 		name := stageName(c)
